@@ -133,6 +133,19 @@ def InterpTable.lookup (t : InterpTable α) (k : α) : Option α :=
           if t.exHigh || decide (k ≤ b.1 * ((1.0 : α) + t.tol)) then some (lineAt a.1 a.2 b.1 b.2 k) else none
         | none => none
 
+/-- CPython ≥ 3.12 `sum()` over floats: Neumaier compensated summation (Python/bltinmodule.c).
+State is (running sum, compensation). -/
+def pySumStep [Transc α] (st : α × α) (x : α) : α × α :=
+  let f := st.1
+  let c := st.2
+  let t := f + x
+  let c := if Transc.abs f ≥ Transc.abs x then c + ((f - t) + x) else c + ((x - t) + f)
+  (t, c)
+
+def pySum [Transc α] (l : List α) : α :=
+  let st := l.foldl pySumStep ((0.0 : α), (0.0 : α))
+  if feq st.2 (0.0 : α) then st.1 else st.1 + st.2
+
 /-- lookup as a number: IndexError becomes `Transc.nan` -/
 def InterpTable.at [Transc α] (t : InterpTable α) (k : α) : α :=
   match t.lookup k with
